@@ -86,8 +86,8 @@ func (d *Director) Peer(a *Actor, asked int, kind string, legacyClient bool) ([]
 	t0 := time.Now()
 	eff := asked
 	if legacyClient {
-		if asked <= 0 {
-			eff = 3 // documented default of the legacy client request
+		if asked == 0 {
+			eff = 3 // documented default of the legacy client request when it names no count (the field is omitted when 0)
 		}
 	}
 	exp := d.expectPeers(a, eff, kind, t0)
